@@ -662,3 +662,32 @@ def variant_guard(fn, node, field=None, adt_suffix=None):
             continue
         names.add(f.val)
     return names
+
+
+def forward_with_control(fn, seeds, effects=True):
+    """forward data dependence plus control dependence: whatever is assigned in a block dominated
+    by an edge of a branch on a tainted value is tainted as well"""
+    tainted = set(seeds)
+    cfg = fn.cfg
+    while True:
+        t2 = forward(fn, tainted, effects=effects)
+        added = False
+        for bb, edges in cfg.edges.items():
+            l = op_local(fn.blocks[bb]["term"]["discr"])
+            if l is None or l not in t2:
+                continue
+            for b in fn.blocks:
+                if b.get("cleanup"):
+                    continue
+                if any(cfg.dominates(e.node, b["id"]) for e in edges):
+                    for s in b["stmts"]:
+                        if s["s"] == "assign" and s["dst"]["local"] not in t2:
+                            t2.add(s["dst"]["local"])
+                            added = True
+                    t = b["term"]
+                    if t["t"] == "call" and t.get("dst") and t["dst"]["local"] not in t2:
+                        t2.add(t["dst"]["local"])
+                        added = True
+        if not added and t2 == tainted:
+            return t2
+        tainted = t2
